@@ -42,7 +42,7 @@ def reversal(chk, P):
     chk.require(len(fs) == 1, "ensureActiveContactsUpdated not found")
     f = fs[0]
     calls = [(b, i, e) for b, i, e in f.calls() if str(e.get("fn", "")).endswith("::trackContact")]
-    chk.judge(len(calls) == 2, "REVERSE", "two-trackContact-calls", f.loc, "one call per orientation (found %d)" % len(calls))
+    chk.shape(len(calls) == 2, "REVERSE", "two-trackContact-calls", f.loc, "one call per orientation (found %d)" % len(calls))
     if len(calls) == 2:
         (b1, _, e1), (b2, _, e2) = calls
         a1, a2 = [sx_str(x) for x in call_args(e1)], [sx_str(x) for x in call_args(e2)]
@@ -58,7 +58,7 @@ def reversal(chk, P):
         gct = [e for _, _, e in f.calls() if str(e.get("fn", "")).endswith("::getContactTracker") and len(call_args(e)) >= 3]
         bools = {d["var"] for _, _, d in f.events(lambda d: d["k"] == "decl" and d["ty"] == "bool")}
         flag = sorted({var_of(call_args(e)[2]) for e in gct if var_of(call_args(e)[2]) in bools})
-        chk.judge(len(flag) == 1, "REVERSE", "flag-variable", f.loc, "reversal flag variable found")
+        chk.shape(len(flag) == 1, "REVERSE", "flag-variable", f.loc, "reversal flag variable found")
         if flag:
             tr = guard_blocks(f, lambda c: c == ["var", flag[0]], 0)
             fl = guard_blocks(f, lambda c: c == ["var", flag[0]], 1)
